@@ -65,8 +65,9 @@ func (ex *Exec) startMain() {
 func (ex *Exec) spawn(parent *G, fn Value, args []Value, cc *ssa.CallCommon) {
 	g := &G{id: len(ex.gs)}
 	if parent != nil {
-		ex.vcTick(parent)
+		ex.vcTickLazy(parent)
 		g.vc = append([]int(nil), parent.vc...)
+		ex.vcTick(parent) // publish, then advance: later accesses of the parent are not ordered before the child
 	}
 	ex.gs = append(ex.gs, g)
 	// set up the call in the new goroutine: use a tiny trampoline
@@ -327,12 +328,14 @@ func (ex *Exec) completeCase(g *G, w *Wait, i int) {
 		c.ch.SendLog = append(c.ch.SendLog, g.id)
 		if p := ex.partner(g, c.ch, false); p != nil && len(c.ch.Buf) == 0 {
 			// hand over directly to parked receiver
-			ex.vcTick(g)
+			ex.vcTickLazy(g)
 			ex.vcJoin(p, g.vc)
+			ex.vcTick(g)
 			ex.deliver(p, c.ch, c.val, true)
 		} else {
-			ex.vcTick(g)
+			ex.vcTickLazy(g)
 			c.ch.Buf = append(c.ch.Buf, &chanItem{v: c.val, vc: append([]int(nil), g.vc...)})
+			ex.vcTick(g)
 		}
 	} else {
 		if len(c.ch.Buf) > 0 {
@@ -355,6 +358,7 @@ func (ex *Exec) completeCase(g *G, w *Wait, i int) {
 			}
 			recvVal = ex.takeFromParkedSender(p, c.ch)
 			ex.vcJoin(g, p.vc)
+			ex.vcTick(p)
 		}
 	}
 	ex.setChanResult(g, w, i, recvVal, recvOk)
@@ -384,7 +388,7 @@ func (ex *Exec) takeFromParkedSender(p *G, ch *ChanObj) Value {
 		if c.ch == ch && c.send {
 			p.wait = nil
 			ch.SendLog = append(ch.SendLog, p.id)
-			ex.vcTick(p)
+			ex.vcTickLazy(p)
 			ex.setChanResult(p, w, i, nil, true)
 			return c.val
 		}
@@ -403,8 +407,9 @@ func (ex *Exec) moveParkedSender(p *G, ch *ChanObj) {
 		if c.ch == ch && c.send {
 			p.wait = nil
 			ch.SendLog = append(ch.SendLog, p.id)
-			ex.vcTick(p)
+			ex.vcTickLazy(p)
 			ch.Buf = append(ch.Buf, &chanItem{v: c.val, vc: append([]int(nil), p.vc...)})
+			ex.vcTick(p)
 			ex.setChanResult(p, w, i, nil, true)
 			return
 		}
@@ -532,8 +537,9 @@ func (ex *Exec) chanClose(g *G, ch *ChanObj) {
 	}
 	ch.Closed = true
 	ch.CloseBy = append(ch.CloseBy, g.id)
-	ex.vcTick(g)
+	ex.vcTickLazy(g)
 	ch.closeVC = append([]int(nil), g.vc...)
+	ex.vcTick(g)
 }
 
 // ---- mutexes ----
@@ -579,8 +585,9 @@ func (ex *Exec) mutexUnlock(g *G, p *PtrV) {
 		ex.goPanic("sync: unlock of unlocked mutex")
 	}
 	m.held = false
-	ex.vcTick(g)
+	ex.vcTickLazy(g)
 	m.vc = vcMax(m.vc, g.vc)
+	ex.vcTick(g) // publish, then advance
 }
 
 func (ex *Exec) mutexRLock(g *G, p *PtrV) {
@@ -599,8 +606,9 @@ func (ex *Exec) mutexRUnlock(g *G, p *PtrV) {
 		ex.goPanic("sync: RUnlock of unlocked RWMutex")
 	}
 	m.readers--
-	ex.vcTick(g)
+	ex.vcTickLazy(g)
 	m.vc = vcMax(m.vc, g.vc)
+	ex.vcTick(g)
 }
 
 func (ex *Exec) heldBy(g *G, c *Cell) bool {
